@@ -1,4 +1,4 @@
-import MitmVerif.Model.C36
+import MitmVerif.Model.C36_Gate
 import Driver.WireC36
 import Driver.Proto
 open MitmVerif Driver MitmVerif.C36
@@ -29,8 +29,9 @@ def c36Step (line : String) : String :=
                              har := fun _ => ([], true) }
       if (sniff b).1 then "har"
       else
-        let r := readAll env b
-        toString r.1.length ++ " " ++ showEnd r.2
+        let r := readAll (gated env) b
+        let tr := gateTrace m d (if oc = "-" then [] else oc.toList) 0 b
+        toString r.1.length ++ " " ++ showEnd r.2 ++ " " ++ (if tr.isEmpty then "-" else String.ofList tr)
     | _, _, _ => "bad-op"
   | _ => "bad-op"
 
